@@ -30,6 +30,10 @@ def main():
     only = sys.argv[sys.argv.index("--only") + 1] if "--only" in sys.argv else ""
     jobs = int(sys.argv[sys.argv.index("--jobs") + 1]) if "--jobs" in sys.argv else 2
     items = [i for i in INDEX if only in i["change"]]
+    if "--check" in sys.argv:             # only the changes whose listed checks include one of these (comma separated)
+        want = set(sys.argv[sys.argv.index("--check") + 1].split(","))
+        items = [i for i in items if want & set(i["checks"])]
+        only = only or "partial"
     out = []
     with cf.ThreadPoolExecutor(max_workers=jobs) as ex:
         for r in ex.map(one, items):
